@@ -73,6 +73,39 @@ def scale_axioms():
                       patterns=[scaled_by(k, o)])]
 
 
+transposed = z3.Function('transposed', Op, Op)      # X.T for an operator of unknown class (C03's contract)
+
+
+def transpose_axioms():
+    """callee contract of X.transpose() / X.T for an operator of unknown class: the adjoint, structures swapped; LA2: adj is
+    an involution"""
+    o = z3.Const('o!tr', Op)
+    w = z3.Const('w!tr', Word)
+    return [z3.ForAll([o], z3.And(denw(transposed(o)) == adjw(denw(o)), denc(transposed(o)) == denc(o),
+                                  ins(transposed(o)) == outs(o), outs(transposed(o)) == ins(o)), patterns=[transposed(o)]),
+            z3.ForAll([w], adjw(adjw(w)) == w, patterns=[adjw(adjw(w))]), adjw(EMPTY) == EMPTY]
+
+
+def lem_adj_reverse(res, src, n):
+    """LA2: adj is an anti-homomorphism: the product of the adjoints in reverse order is the adjoint of the product"""
+    k = fresh_int('k')
+    hyp = z3.ForAll([k], z3.Implies(z3.And(k >= 0, k < n), z3.And(denw(res[k]) == adjw(denw(src[n - 1 - k])),
+                                                                 denc(res[k]) == denc(src[n - 1 - k]))))
+    return z3.Implies(hyp, z3.And(Ww(res, 0, n) == adjw(Ww(src, 0, n)), Wc(res, 0, n) == Wc(src, 0, n)))
+
+
+def lem_adj_container(fw_res, res, fw_src, src, n, fc=None):
+    """LA2/LA4: the adjoint of a sum is the sum of the adjoints; adj(row[b]) = col[adj b], adj(diag[b]) = diag[adj b],
+    adj(col[b]) = row[adj b]"""
+    k = fresh_int('k')
+    hyp = z3.ForAll([k], z3.Implies(z3.And(k >= 0, k < n), z3.And(denw(res[k]) == adjw(denw(src[k])),
+                                                                 denc(res[k]) == denc(src[k]))))
+    concl = fw_res(res, n) == adjw(fw_src(src, n))
+    if fc is not None:
+        concl = z3.And(concl, fc(res, n) == fc(src, n))
+    return z3.Implies(hyp, concl)
+
+
 def reduce_axioms():
     o = z3.Const('o!red', Op)
     return [z3.ForAll([o], z3.And(denw(reduced(o)) == denw(o), denc(reduced(o)) == denc(o), ins(reduced(o)) == ins(o),
@@ -319,6 +352,10 @@ class AlgTheory(Theory):
             return denc(o)
         if name == 'reduce':
             return PyFunc(lambda interp: self.reduce_contract(interp, o), 'Op.reduce')
+        if name == 'T':
+            return transposed(o)
+        if name == 'transpose':
+            return PyFunc(lambda interp: transposed(o), 'Op.transpose')
         if name == 'operator':
             dual = self.op_isinstance(interp, o, ClassRef(self.P.cls('_AbstractLazyDualOperator')))
             if not interp.run.branch(dual):
